@@ -66,6 +66,26 @@ type sessIn struct {
 	// Patient: the scripted server sends its answers item by item and notes how many items it had sent when each
 	// client request showed up (connScript.PeekMs): "each request only after the previous step was confirmed"
 	Patient bool `json:"patient,omitempty"`
+	// User / Secret (C14): local part of the configured JID and the password or token; "" = "user" / "secret" ("token")
+	User   string `json:"user,omitempty"`
+	Secret string `json:"secret,omitempty"`
+}
+
+func (in sessIn) user() string {
+	if in.User != "" {
+		return in.User
+	}
+	return "user"
+}
+
+func (in sessIn) secret() string {
+	switch {
+	case in.Secret != "":
+		return in.Secret
+	case in.OAuth:
+		return "token"
+	}
+	return "secret"
 }
 
 // tlsOutcome: model of crypto/tls as configured by XMPPTransport.StartTLS
@@ -123,6 +143,10 @@ func itemSx(it sItem) Sx {
 	case "saslfailure":
 		return L(Z(5))
 	case "iq":
+		if it.NS != "" {
+			// an element called iq in a namespace that is not the stream's: not an IQ stanza, whatever it contains
+			return L(Z(16))
+		}
 		typ := map[string]int{"get": 0, "set": 1, "result": 2, "error": 3}[it.Typ]
 		var pl Sx
 		switch it.Pl {
@@ -252,15 +276,17 @@ func reqSx(e cElem) (Sx, bool) {
 }
 
 type sessObs struct {
-	elems   [][]cElem
-	clear   [][]byte
-	errs    []error
-	estab   []int
-	before  []sessSnap
-	after   []sessSnap
-	tlsLogs []string
-	sends   [][]sendObs // per connection: the sends during the attempt, then those after it (C04)
-	resends [][]sendObs // per connection: the acknowledgements applied during the attempt, then those after it (C04)
+	elems    [][]cElem
+	clear    [][]byte
+	errs     []error
+	estab    []int // per connection: StateSessionEstablished events delivered by the time the connection was over
+	estabRet []int // ... by the time Client.connect had returned (C03: announced exactly when connecting succeeds)
+	before   []sessSnap
+	after    []sessSnap
+	tlsLogs  []string
+	sends    [][]sendObs // per connection: the sends during the attempt, then those after it (C04)
+	resends  [][]sendObs // per connection: the acknowledgements applied during the attempt, then those after it (C04)
+	flags    [][2]bool   // per connection, afterwards: XMPPTransport.isSecure, Session.TlsEnabled (false without a session) (C04)
 }
 type sessSnap struct {
 	has     bool
@@ -302,20 +328,20 @@ func runSessionRaw(in sessIn) (*sessObs, Sx) {
 		return nil, L(SBytes("listen-failed"))
 	}
 	defer srv.stop()
-	jid := "user@" + srvDomain
+	jid := in.user() + "@" + srvDomain
 	if in.Resource != "" {
 		jid += "/" + in.Resource
 	}
 	cfg := &xmpp.Config{
 		TransportConfiguration: xmpp.TransportConfiguration{Address: srv.addr(), Domain: srvDomain, ConnectTimeout: 1},
 		Jid:                    jid,
-		Credential:             xmpp.Password("secret"),
+		Credential:             xmpp.Password(in.secret()),
 		Insecure:               in.Insecure,
 		StreamManagementEnable: in.SMEnable,
 		ConnectTimeout:         1,
 	}
 	if in.OAuth {
-		cfg.Credential = xmpp.OAuthToken("token")
+		cfg.Credential = xmpp.OAuthToken(in.secret())
 	}
 	cfg.VerifSetSMResume(in.SMResume)
 	switch in.TLSMode {
@@ -487,6 +513,10 @@ func runSessionRaw(in sessIn) (*sessObs, Sx) {
 		case <-time.After(hungAfter(c)):
 			return ob, L(SBytes("connect-hung"), Zi(len(conns)))
 		}
+		mu.Lock()
+		estabRet := estab
+		mu.Unlock()
+		ob.estabRet = append(ob.estabRet, estabRet)
 		if c.SendAfter > 0 && !c.NoDial {
 			for j := 0; j < c.SendAfter; j++ {
 				appSend(fmt.Sprintf("a%d", j))
@@ -517,10 +547,12 @@ func runSessionRaw(in sessIn) (*sessObs, Sx) {
 			ob.clear = append(ob.clear, nil)
 			ob.tlsLogs = append(ob.tlsLogs, "")
 			mu.Lock()
-			ob.estab = append(ob.estab, estab)
+			estabEnd := estab
+			ob.estab = append(ob.estab, estabEnd)
 			mu.Unlock()
 			ob.after = append(ob.after, snapClient(client))
-			conns = append(conns, L(L(), errSx(cerr), snapSx(snapClient(client)), L()))
+			ob.flags = append(ob.flags, clientTLSFlags(client))
+			conns = append(conns, L(L(), errSx(cerr), snapSx(snapClient(client)), L(), L(Zi(estabRet), Zi(estabEnd))))
 			// listen again on the same port for later connections
 			if e := srv.relisten(); e != nil {
 				return ob, L(SBytes("relisten-failed"))
@@ -543,7 +575,7 @@ func runSessionRaw(in sessIn) (*sessObs, Sx) {
 				}
 			}
 			srv.push(srvIdx, b.String())
-			deadline := time.Now().Add(3 * time.Second)
+			deadline := time.Now().Add(10 * time.Second) // only bounds a hang: generous, the machine may be loaded
 			for {
 				mu.Lock()
 				n := handled
@@ -596,10 +628,12 @@ func runSessionRaw(in sessIn) (*sessObs, Sx) {
 		ob.clear = append(ob.clear, lg.ClearBy)
 		ob.tlsLogs = append(ob.tlsLogs, lg.TLS)
 		mu.Lock()
-		ob.estab = append(ob.estab, estab)
+		estabEnd := estab
 		mu.Unlock()
+		ob.estab = append(ob.estab, estabEnd)
 		snap := snapClient(client)
 		ob.after = append(ob.after, snap)
+		ob.flags = append(ob.flags, clientTLSFlags(client))
 		var reqs []Sx
 		answers := []Sx{}
 		for _, e := range lg.Elems {
@@ -625,9 +659,16 @@ func runSessionRaw(in sessIn) (*sessObs, Sx) {
 				reqs = append(reqs, L(x, B(e.Secure), Zi(sb)))
 			}
 		}
-		conns = append(conns, L(LS(reqs), errSx(cerr), snapSx(snap), LS(answers)))
+		// fifth component: how often the session-established state was announced to the EventHandler, by the
+		// time Client.connect returned and by the time the connection was over
+		conns = append(conns, L(LS(reqs), errSx(cerr), snapSx(snap), LS(answers), L(Zi(estabRet), Zi(estabEnd))))
 	}
 	return ob, LS(conns)
+}
+
+// clientTLSFlags: the two flags the TLS gate of NewSession reads, as the client's objects hold them now.
+func clientTLSFlags(c *xmpp.Client) [2]bool {
+	return [2]bool{xmpp.VerifTransportSecureFlag(xmpp.VerifTransport(c)), c.Session != nil && c.Session.TlsEnabled}
 }
 
 func allErrNil(sends []sendObs) bool {
